@@ -103,7 +103,9 @@ impl Interner for TableProvider {
 impl DependencyProvider for TableProvider {
     async fn filter_candidates(&self, candidates: &[SolvableId], version_set: VersionSetId, inverse: bool) -> Vec<SolvableId> {
         if self.gate_filter_sort { self.gate(format!("f{}{}", version_set.0, if inverse { "i" } else { "" })).await; }
-        candidates.iter().copied().filter(|c| self.matches(version_set.0, c.0) != inverse).collect()
+        let mut kept: Vec<SolvableId> = candidates.iter().copied().filter(|c| self.matches(version_set.0, c.0) != inverse).collect();
+        if self.u.filter_rev { kept.reverse(); }
+        kept
     }
 
     async fn get_candidates(&self, name: NameId) -> Option<Candidates> {
